@@ -45,6 +45,8 @@ def find_scope(text, header_re, nth=0):
     # template header preceding the match (for enable_if conditions)
     return text[i + 1:j], text[max(0, m.start() - 1200):m.start()] + m.group(0)
 
+def nospace(t): return re.sub(r'\s+', '', t)
+
 def preprocess(body, defined):
     """minimal conditional compilation: #if defined(A) || defined(B) / #ifdef / #ifndef / #else / #endif"""
     out = []; stack = []
@@ -496,6 +498,37 @@ def gen_all(repo):
     G.define('gen_to_positive_iseq', '(f l s n : Z)', '(Z * Z)',
              struct_consts('tensor/Ranges.h', r'struct\s+to_positive\s*<\s*iseq<F,L,S>\s*,\s*N\s*>\s*\{', ['_first', '_last'], envr, 'Z'),
              'tensor/Ranges.h: to_positive<iseq<F,L,S>,N>::{_first,_last}')
+
+    # ---- meta/einsum_meta.h: is_vectorisable / is_reducibly_vectorisable (which vector type and stride a contraction loop uses)
+    EM = 'meta/einsum_meta.h'
+    iv_atoms = [(r'get_value\s*<\s*sizeof\.\.\.\(Rest\)\s*,\s*Rest\.\.\.\s*>::value', 'F', 'n'),
+                (r'\(int\)\s*no_of_unique\s*<\s*Idx0\.\.\.\s*,\s*Idx1\.\.\.\s*>::value', 'nu', 'n'),
+                (r'\(int\)\s*sizeof\.\.\.\(Idx0\)', 'n0', 'n'), (r'\(int\)\s*sizeof\.\.\.\(Idx1\)', 'n1', 'n'),
+                (r'contains\s*\(\s*idx\s*,\s*get_value\s*<\s*sizeof\.\.\.\(Idx1\)\s*,\s*Idx1\.\.\.\s*>::value\s*\)', 'lc', 'b'),
+                (r'_vec_size\s*<\s*simd_abi::sse\s*>::value', 'ws', 'n'), (r'_vec_size\s*<\s*simd_abi::avx\s*>::value', 'wa', 'n')]
+    def isvec(header, ty):
+        def fn():
+            body, _ = find_scope(G.src(EM), header, 0)
+            ds = [d for d in decls_of(body)]
+            lets, e = let_chain(ds, 'Z', {}, iv_atoms, None)
+            for n in ('value', 'stride', 'avx_vectorisability', 'sse_vectorisability'):
+                if n not in e: raise XErr('declaration not found: ' + n)
+            t = nospace(body)
+            want = (r'usingtype=typenamestd::conditional<avx_vectorisability,SIMDVector<%s,simd_abi::avx>,typenamestd::conditional<sse_vectorisability,SIMDVector<%s,simd_abi::sse>,'
+                    r'SIMDVector<%s,simd_abi::scalar>>::type>::type;' % (ty, ty, ty))
+            if not re.search(want, t): raise XErr('`type` is not conditional<avx_vectorisability, avx vector, conditional<sse_vectorisability, sse vector, scalar vector>> of ' + ty)
+            return '(' + NL.join(lets) + NL + '(%s, %s, (if %s then wa else if %s then ws else 1)))%%Z' % (e['value'][0], e['stride'][0], e['avx_vectorisability'][0], e['sse_vectorisability'][0])
+        return fn
+    isv = '(value, stride, lanes of the vector type `type`)'
+    G.define('gen_is_vectorisable', '(F nu n0 n1 : Z) (lc : bool) (ws wa : Z)', '(bool * Z * Z)',
+             isvec(r'struct\s+is_vectorisable\s*<\s*Index<Idx0\.\.\.>\s*,\s*Index<Idx1\.\.\.>\s*,\s*Tensor<T,Rest\.\.\.>\s*>\s*\{', 'T'),
+             EM + ': is_vectorisable<Index<Idx0...>,Index<Idx1...>,Tensor<T,Rest...>>: ' + isv + ' from F = last extent, lc = last index of the second tensor is contracted, ws / wa = lanes of the sse / avx vector of T')
+    G.define('gen_is_vectorisable_float', '(F nu n0 n1 : Z) (lc : bool) (ws wa : Z)', '(bool * Z * Z)',
+             isvec(r'struct\s+is_vectorisable\s*<\s*Index<Idx0\.\.\.>\s*,\s*Index<Idx1\.\.\.>\s*,\s*Tensor<float,Rest\.\.\.>\s*>\s*\{', 'float'), EM + ': the specialisation for float (literal widths)')
+    G.define('gen_is_vectorisable_double', '(F nu n0 n1 : Z) (lc : bool) (ws wa : Z)', '(bool * Z * Z)',
+             isvec(r'struct\s+is_vectorisable\s*<\s*Index<Idx0\.\.\.>\s*,\s*Index<Idx1\.\.\.>\s*,\s*Tensor<double,Rest\.\.\.>\s*>\s*\{', 'double'), EM + ': the specialisation for double (literal widths)')
+    G.define('gen_is_reducibly_vectorisable', '(F nu n0 n1 : Z) (lc : bool) (ws wa : Z)', '(bool * Z * Z)',
+             isvec(r'struct\s+is_reducibly_vectorisable\s*<\s*Index<Idx\.\.\.>\s*,\s*Tensor<T,Rest\.\.\.>\s*>\s*\{', 'T'), EM + ': is_reducibly_vectorisable<Index<Idx...>,Tensor<T,Rest...>>: ' + isv)
 
     # ---- simd_vector_abi.h ---------------------------------------------------------------------------
     abi_atoms = [(r'std::is_same\s*<\s*ABI\s*,\s*simd_abi::avx512\s*>::value', r'(a =? 3)', 'b'),
@@ -1483,6 +1516,50 @@ def gen_access(repo):
         g = qr_parse(); env = ids(['i'])
         return '[%s; %s]' % (translate(g[5], 'nat', env, ())[0], translate(g[9], 'nat', env, ())[0])
     G.define('gen_qr_mgs_inner_start', '(i : nat)', 'list nat', qr_starts, LO + 'unary_qr_op.h qr_mgsr_dispatcher: first column j0 of the inner loops of steps 3 and 4')
+    # ---- tensor/TensorFunctions.h: tocolumnmajor / torowmajor (C20)
+    TF = 'tensor/TensorFunctions.h'
+    def layout_parse(name):
+        txt = strip_comments(G.src(TF))
+        body, _ = find_scope(txt, r'FASTOR_INLINE\s+Tensor<T,Rest\.\.\.>\s+' + name + r'\s*\(const\s+TensorType<T,Rest\.\.\.>\s*&a\)\s*\{', 0)
+        pat = (r'constexprintDimension=sizeof\.\.\.\(Rest\);if\(Dimension<2\)\{returna;\}else\{Tensor<T,Rest\.\.\.>out;T\*arr_out=out\.data\(\);constT\*a_data=a\.data\(\);'
+               r'if\(Dimension==2\)\{constexprFASTOR_INDEXM=get_value<1,Rest\.\.\.>::value;constexprFASTOR_INDEXN=get_value<2,Rest\.\.\.>::value;'
+               r'for\(FASTOR_INDEXi=0;i<M;\+\+i\)\{for\(FASTOR_INDEXj=0;j<N;\+\+j\)\{arr_out\[([^\]]*)\]=a_data\[([^\]]*)\];\}\}\}'
+               r'else\{constexprintSize=pack_prod<Rest\.\.\.>::value;std::array<size_t,Dimension>products_=nprods_views<Index<Rest\.\.\.>,typenamestd_ext::make_index_sequence<Dimension>::type>::values;'
+               r'FASTOR_INDEXDimensionHolder\[Dimension\]=\{Rest\.\.\.\};std::reverse\(DimensionHolder,DimensionHolder\+Dimension\);std::reverse\(products_\.begin\(\),products_\.end\(\)\);'
+               r'std::array<int,Dimension>as=\{\};intjt;FASTOR_INDEXcounter=0;while\(counter<Size\)\{FASTOR_INDEXindex=0;for\(intii=0;ii<Dimension;\+\+ii\)\{index\+=products_\[ii\]\*as\[ii\];\}'
+               r'arr_out\[(index|counter)\]=a_data\[(index|counter)\];counter\+\+;for\(jt=Dimension-1;jt>=0;jt--\)\{as\[jt\]\+=1;if\(as\[jt\]<DimensionHolder\[jt\]\)break;elseas\[jt\]=0;\}if\(jt<0\)break;\}\}returnout;\}')
+        m = re.fullmatch(pat, nospace(body))
+        if not m: raise XErr(name + ': body not recognised (rank < 2: copy; rank 2: double loop; otherwise the odometer over the reversed extents with index = sum products_[ii]*as[ii])')
+        return m.groups()
+    def layout2d(name):
+        def fn():
+            g = layout_parse(name); env = ids(['M', 'N', 'i', 'j'])
+            return '(%s, %s)' % (translate(g[0], 'nat', env, ())[0], translate(g[1], 'nat', env, ())[0])
+        return fn
+    G.define('gen_tocolumnmajor_2d', '(M N i j : nat)', '(nat * nat)', layout2d('tocolumnmajor'), TF + ': tocolumnmajor, rank 2: arr_out[fst] = a_data[snd] for i < M, j < N')
+    G.define('gen_torowmajor_2d', '(M N i j : nat)', '(nat * nat)', layout2d('torowmajor'), TF + ': torowmajor, rank 2: arr_out[fst] = a_data[snd] for i < M, j < N')
+    def layout_general():
+        c = layout_parse('tocolumnmajor'); r = layout_parse('torowmajor')
+        return '[(%s, %s); (%s, %s)]' % (B(c[2] == 'index'), B(c[3] == 'index'), B(r[2] == 'index'), B(r[3] == 'index'))
+    G.define('gen_layout_general', '', 'list (bool * bool)', layout_general,
+             TF + ': rank > 2, [tocolumnmajor; torowmajor]: (the destination is addressed by `index`, the source is addressed by `index`) - the other side by the running counter; '
+             'both functions run the same odometer over the reversed extents with index = sum of products_[ii]*as[ii] (the translator accepts nothing else)')
+    def map_functions():
+        txt = strip_comments(G.src(TF)); out = []
+        for name, ret in [('squeeze', r'index_to_tensor_map_t<T,filter_t<1,Rest\.\.\.>>'), ('reshape', r'TensorMap<T,shapes\.\.\.>'), ('flatten', r'TensorMap<T,pack_prod<Rest\.\.\.>::value>')]:
+            ms = list(re.finditer(r'\b' + name + r'\s*\(const\s+(?:TensorType|Tensor)<T,Rest\.\.\.>\s*&a\)\s*\{', txt))
+            if len(ms) != 1: raise XErr('%d definitions of %s(const Tensor&)' % (len(ms), name))
+            i = ms[0].end() - 1; j = match_close(txt, i); b = nospace(txt[i + 1:j])
+            head = nospace(txt[max(0, ms[0].start() - 160):ms[0].start()])
+            ok = bool(re.fullmatch(r'(?:static_assert\(pack_prod<shapes\.\.\.>::value==pack_prod<Rest\.\.\.>::value,"[^"]*"\);)?return' + ret + r'\(a\.data\(\)\);', b)) and bool(re.search(ret + r'$', head))
+            out.append(B(ok))
+        tm = strip_comments(G.src('tensor/TensorMap.h'))
+        m = re.search(r'static\s+constexpr\s+FASTOR_INLINE\s+bool\s+is_aligned\s*\(\s*\)\s*\{\s*return\s+(\w+)\s*;', tm)
+        if not m: raise XErr('TensorMap::is_aligned() not found')
+        out.append(B(m.group(1) == 'false'))
+        return '[' + '; '.join(out) + ']'
+    G.define('gen_map_functions', '', 'list bool', map_functions,
+             TF + ' / tensor/TensorMap.h: [squeeze; reshape; flatten] return their declared map type constructed from a.data() (the same storage, no copy); last entry: TensorMap::is_aligned() is the constant false')
     hdr = ('(** GENERATED by lib/cxx2v.py from the C++ source of /repo on every run -- do not edit.\n'
            '    Index expression of every operand / result access of the transpose and matmul kernels;\n'
            '    structure of the reductions and predicates of AbstractTensorFunctions.h. *)\n'
